@@ -382,6 +382,10 @@ def run(prog, rep):
                       "the parent chain walk in %s does not advance on every iteration path (or writes _parent)" % f.short, where(f, n),
                       witness="the query loops forever on a well-formed tree")
     rep.floor("WALK-1", walks, 4, "parent chain walks")
+    from ..report import import_verdicts
+    import_verdicts(prog, rep, "C11", ("ALIAS-1",), "CLONE-P",
+                    "a copy is made by copy.copy and carries the parent pointer of its original until clone() clears it: on every path to its "
+                    "return clone() stores _parent = None (and fresh child lists), else the copy claims a parent that does not list it")
     rep.assume("objects are created only through the constructors (fresh objects satisfy I trivially)")
     rep.assume("user code does not assign _parent/_sections/_props directly (private attributes)")
 
